@@ -1,7 +1,9 @@
 package main
 
 import (
+	"encoding/json"
 	"fmt"
+	"os"
 	"sort"
 	"strings"
 	"time"
@@ -420,6 +422,21 @@ func (e *Env) metaBucket() string {
 
 // StoredSeq returns the stored checkpoint seqno of vb (0,false if none).
 func (e *Env) StoredSeq(vb uint16) (uint64, bool) {
+	if e.O.Metadata == "file" {
+		b, err := os.ReadFile(e.O.FileName)
+		if err != nil {
+			return 0, false
+		}
+		m := map[uint16]*models.CheckpointDocument{}
+		if json.Unmarshal(b, &m) != nil {
+			return 0, false
+		}
+		d, ok := m[vb]
+		if !ok || d.Checkpoint == nil {
+			return 0, false
+		}
+		return d.Checkpoint.SeqNo, true
+	}
 	d, ok := StoredDoc(e.C, e.metaBucket(), e.O.Group, vb)
 	if !ok {
 		return 0, false
